@@ -301,7 +301,9 @@ def run_c06(ctx, C):
 
 
 def run_c04(ctx, C):
-    codec_common(ctx, C, [GEN_CURSOR, GEN_SK, dict(GEN_CIPHER, constants=dict(PropId='"C04"')), GEN_EAP_UNKNOWN], [DRV_BYTES], traces=("Trace_Codec",))
+    # (the SK and cipher behaviours are replayed here for "never crashes, same outcome in every capacity layout"; their recorded traces are
+    #  judged by Trace_SK / Trace_Cipher in C01 C02 C06 C10 -- Trace_Codec has no use for them and they are gigabytes in the thorough tier)
+    codec_common(ctx, C, [GEN_CURSOR, dict(GEN_SK, trace=False), dict(GEN_CIPHER, constants=dict(PropId='"C04"'), trace=False), GEN_EAP_UNKNOWN], [DRV_BYTES], traces=("Trace_Codec",))
     C.stage_apalache(ctx)
 
 
